@@ -47,6 +47,19 @@ def directed(run):
             scs.append(scenario(store_kind=kind, disc=disc, ops=[gi(), gi()], user={"verif_enabled": rng.choice([None, False, True])}))
         scs.append(scenario(store_kind=kind, ops=[gi(), {"op": "make_credential", "req": mc_req(rng, rk=True)}, gi()],
                             config={"hmac": {"without_uv": True, "on_mc": False}}))
+    # authenticators built with an explicit transports list (empty, with duplicates): getInfo must be the same through the trait
+    for tr in ([], ["usb", "internal", "usb"], ["hybrid"], ["internal", "internal"]):
+        scs.append(scenario(store_kind="ref", config={"transports": tr}, ops=[gi(), {"op": "make_credential", "req": mc_req(rng)}, gi()]))
+    # silent assertions (up = false) and assertions without uv on credentials with and without a counter: same store effect
+    cid = bytes([0x5A]) * 16
+    for counter in (None, 0, 5, 2**32 - 2):
+        for up, uv in ((False, False), (True, False), (False, True)):
+            content = [mk_passkey(rng, "example.com", cred_id=cid, counter=counter, keyidx=0)]
+            for kind in ("ref", "memory"):
+                scs.append(scenario(store_kind=kind, content=content, config={"counter": True},
+                                    ops=[{"op": "get_assertion", "req": ga_req(rng, allow=[cid], up=up, uv=uv)},
+                                         {"op": "get_assertion", "req": ga_req(rng, allow=[cid], up=True, uv=uv)}],
+                                    user={"script": [{"presence": up, "verification": uv}, {"presence": True, "verification": uv}]}))
     for n in (64, 65, 100, 300):
         for ch in ("a", "\u00e9", "\u6f22"):
             name = (ch * n)[: n if ch == "a" else n // len(ch.encode("utf-8"))]
@@ -88,24 +101,33 @@ def check(run):
 
 
 def search(run):
-    """a proof or translator tie broke: look for a concrete request on which the trait call does not
-    behave like the direct call (crash, hang, different result)"""
+    """a proof or translator tie broke: look for a concrete request / sequence on which the trait call does not behave like
+    the direct call (crash, hang, different result, different effect on the store) - the basic three calls first, then
+    the directed sequences and a sample of random histories, each run directly and through the trait"""
     binary = common.harness_build("ceremony")
     rng = run.rng
     scs = []
     cid = bytes([0xC1]) * 16
     content = [mk_passkey(rng, "example.com", cred_id=cid, counter=1, keyidx=0)]
     for kind, req in (("get_info", None), ("make_credential", mc_req(rng)), ("get_assertion", ga_req(rng, allow=[cid]))):
-        for prefix in ("", "trait_"):
-            op = {"op": prefix + kind}
-            if req is not None: op["req"] = req
-            scs.append(scenario(store_kind="memory", content=content, ops=[op]))
-    outs = ceremony.run_scenarios(binary, scs)
-    for i in range(0, len(scs), 2):
-        d, t = outs[i], outs[i + 1]
+        op = {"op": kind}
+        if req is not None: op["req"] = req
+        scs.append(scenario(store_kind="memory", content=content, ops=[op]))
+    scs += directed(run) + [gen_history(rng, "quick", with_hmac=True, max_ops=3) for _ in range(40)]
+    via = []
+    for sc in scs:
+        t = copy.deepcopy(sc)
+        for op in t["ops"]:
+            op["op"] = "trait_" + op["op"]
+        via.append(t)
+    outs = ceremony.run_scenarios(binary, scs + via)
+    n = len(scs)
+    for i in range(n):
+        d, t = outs[i], outs[n + i]
         if "ops" not in t:
-            return {"kind": "calling %s through the Ctap2Api trait kills the process (%s); the direct method returns normally" % (scs[i + 1]["ops"][0]["op"], t.get("crash")),
-                    "scenario": scs[i + 1], "observed": t, "direct": d}
+            return {"kind": "calling %s through the Ctap2Api trait kills the process (%s); the direct method returns normally" % (via[i]["ops"][0]["op"], t.get("crash")),
+                    "scenario": via[i], "observed": t, "direct": d}
         if "ops" in d and summary(d) != summary(t):
-            return {"kind": "the trait call and the direct call differ", "scenario": scs[i + 1], "observed": t, "direct": d}
+            return {"kind": "the trait call and the direct call differ (result or effect on the store)", "scenario": via[i],
+                    "via_trait": summary(t), "direct": summary(d)}
     return None
